@@ -514,6 +514,67 @@ fn policies(repo: &Path) -> Vec<(String, String, String)> {
     out
 }
 
+// ------------------------------------------------------------------------------------------
+// decision rows: the conditions under which a receiver keeps / removes the connection of a sender
+// that has gone away (port/details/receiver.rs); conditions are emitted as token text
+// ------------------------------------------------------------------------------------------
+struct CondFinder {
+    in_fn: Option<String>,
+    rows: Vec<(String, String)>,
+}
+
+fn toks<T: ToTokens>(t: &T) -> String {
+    t.to_token_stream().to_string()
+}
+
+fn block_has_break(b: &syn::Block) -> bool {
+    b.stmts.iter().any(|s| matches!(s, syn::Stmt::Expr(syn::Expr::Break(_), _)))
+}
+
+impl<'ast> syn::visit::Visit<'ast> for CondFinder {
+    fn visit_impl_item_fn(&mut self, f: &'ast syn::ImplItemFn) {
+        let prev = self.in_fn.replace(f.sig.ident.to_string());
+        syn::visit::visit_impl_item_fn(self, f);
+        self.in_fn = prev;
+    }
+    fn visit_expr_if(&mut self, e: &'ast syn::ExprIf) {
+        match self.in_fn.as_deref() {
+            Some("receiver_channels_have_data_or_borrows") if block_has_break(&e.then_branch) => {
+                self.rows.push(("receiver_channels_have_data_or_borrows.break_if".into(), toks(&*e.cond)));
+            }
+            Some("receive_from_to_be_removed_connections") if toks(&*e.cond).contains("has_borrows") => {
+                self.rows.push(("receive_from_to_be_removed_connections.remove_if".into(), toks(&*e.cond)));
+            }
+            _ => {}
+        }
+        syn::visit::visit_expr_if(self, e);
+    }
+    fn visit_local(&mut self, l: &'ast syn::Local) {
+        if self.in_fn.as_deref() == Some("prepare_connection_removal") && toks(&l.pat) == "keep_connection" {
+            if let Some(init) = &l.init {
+                self.rows.push(("prepare_connection_removal.keep_connection".into(), toks(&*init.expr)));
+            }
+        }
+        syn::visit::visit_local(self, l);
+    }
+}
+
+fn decision_rows(repo: &Path) -> Vec<(String, String)> {
+    let f = "iceoryx2/src/port/details/receiver.rs";
+    let src = std::fs::read_to_string(repo.join(f)).unwrap_or_else(|e| die(format!("{}: {}", f, e)));
+    let ast = syn::parse_file(&src).unwrap_or_else(|e| die(format!("{}: parse error: {}", f, e)));
+    let mut c = CondFinder { in_fn: None, rows: vec![] };
+    syn::visit::Visit::visit_file(&mut c, &ast);
+    for want in ["receiver_channels_have_data_or_borrows.break_if", "receive_from_to_be_removed_connections.remove_if", "prepare_connection_removal.keep_connection"] {
+        let n = c.rows.iter().filter(|r| r.0 == want).count();
+        if n != 1 {
+            die(format!("{}: expected exactly one `{}` decision, found {}", f, want, n));
+        }
+    }
+    c.rows.sort();
+    c.rows
+}
+
 fn coq_str(s: &str) -> String {
     format!("\"{}\"", s.replace('"', "\"\""))
 }
@@ -641,6 +702,13 @@ fn main() {
         writeln!(v, "  ({}, {}, {}){}", coq_str(&p.0), coq_str(&p.1), coq_str(&p.2), if i + 1 < pol.len() { ";" } else { "" }).unwrap();
     }
     writeln!(v, "].").unwrap();
+    let dec = decision_rows(repo);
+    writeln!(v, "(* conditions of port/details/receiver.rs that decide whether the connection of a departed sender is kept: (site, condition as token text) *)").unwrap();
+    writeln!(v, "Definition own_decisions : list (string * string) := [").unwrap();
+    for (i, d) in dec.iter().enumerate() {
+        writeln!(v, "  ({}, {}){}", coq_str(&d.0), coq_str(&d.1), if i + 1 < dec.len() { ";" } else { "" }).unwrap();
+    }
+    writeln!(v, "].").unwrap();
     std::fs::write(&a[2], v).unwrap_or_else(|e| die(format!("{}: {}", a[2], e)));
 
     // JSON copy (rows as readable strings so that the check can name the row that moved)
@@ -666,6 +734,10 @@ fn main() {
     j.push_str(" ],\n \"policies\": [\n");
     for (i, p) in pol.iter().enumerate() {
         write!(j, "  {}{}\n", json_str(&format!("{} : {} ({})", p.0, p.1, p.2)), if i + 1 < pol.len() { "," } else { "" }).unwrap();
+    }
+    j.push_str(" ],\n \"decisions\": [\n");
+    for (i, d) in dec.iter().enumerate() {
+        write!(j, "  {}{}\n", json_str(&format!("{} : {}", d.0, d.1)), if i + 1 < dec.len() { "," } else { "" }).unwrap();
     }
     j.push_str(" ]\n}\n");
     std::fs::write(&a[3], j).unwrap_or_else(|e| die(format!("{}: {}", a[3], e)));
